@@ -113,4 +113,73 @@ theorem reconcile_path_prefix (mode : Mode) (toAlpha : Bool) (path : Path) (a α
     rw [handleDisagreement_path mode path a α β toAlpha c hc]
     exact List.prefix_refl _
 
+/-! ## Descending to a node -/
+
+/-- Both sides are shallowly equal directories all the way down `q`, and the
+ancestor's contents are the ones the recursion uses. -/
+def Along : Option Entry → Option Entry → Option Entry → Path → Prop
+  | _, _, _, [] => True
+  | a, α, β, n :: r =>
+    isKind α .directory = true ∧ isKind β .directory = true ∧ shallowEq α β = true ∧
+    contents (ancestorForRecursion a α) = contents a ∧
+    Along (lookup n (contents a)) (lookup n (contents α)) (lookup n (contents β)) r
+
+theorem isKind_directory_facts {x : Option Entry} (h : isKind x .directory = true) :
+    isKind x .problematic = false ∧ x.isNone = false ∧ isKind x .untracked = false := by
+  cases x with
+  | none => simp [isKind] at h
+  | some e =>
+    simp only [isKind, beq_iff_eq] at h
+    simp [isKind, h]
+
+theorem singleton_prefix_cons {m n : Name} {r : List Name} (h : [m] <+: n :: r) : m = n := by
+  obtain ⟨t, ht⟩ := h
+  simp at ht
+  exact ht.1
+
+/-- The changes of a plan that concern a path `q` below a chain of shallowly
+equal directories are those planned at the node `q` itself. -/
+theorem reconcile_descend (mode : Mode) (toAlpha : Bool) (q : Path) :
+    ∀ (path : Path) (a α β : Option Entry), Along a α β q →
+      ∀ c ∈ side toAlpha (reconcile mode path a α β),
+        (c.path <+: path ++ q ∨ path ++ q <+: c.path) →
+        c ∈ side toAlpha (reconcile mode (path ++ q) (getPath a q) (getPath α q) (getPath β q)) := by
+  induction q with
+  | nil => intro path a α β _ c hc _; simpa [getPath] using hc
+  | cons n r ih =>
+    intro path a α β hal c hc hrel
+    obtain ⟨hα, hβ, hs, hanc, hrest⟩ := hal
+    obtain ⟨h1, h1n, h1u⟩ := isKind_directory_facts hα
+    obtain ⟨h2, _, _⟩ := isKind_directory_facts hβ
+    have h3 : bothAbsent α β = false := by simp [bothAbsent, h1n, h1u]
+    rw [reconcile_rec mode path a α β h1 h2 h3 hs] at hc
+    have hhere : side toAlpha (if !shallowEq a α then Plan.ancChange { path := path, new := ocopy .slim α } else {}) = [] := by
+      cases toAlpha <;> simp [side] <;> split <;> simp [Plan.ancChange]
+    have hc' : c ∈ side toAlpha (Plan.concat ((nameUnion [contents (ancestorForRecursion a α), contents α, contents β]).map fun n =>
+        reconcile mode (path ++ [n]) (lookup n (contents (ancestorForRecursion a α)))
+          (lookup n (contents α)) (lookup n (contents β)))) := by
+      cases toAlpha <;> simp only [side, append_alpha, append_beta, Bool.false_eq_true, if_false, if_true] at hc hhere ⊢ <;>
+        (rw [hhere, List.nil_append] at hc; exact hc)
+    obtain ⟨p, hp, hcp⟩ := (mem_concat_side toAlpha _ c).mp hc'
+    obtain ⟨m, hm, rfl⟩ := List.mem_map.mp hp
+    have hpre := reconcile_path_prefix mode toAlpha _ _ _ _ c hcp
+    have hmn : m = n := by
+      rcases hrel with hrel | hrel
+      · have := hpre.trans hrel
+        rw [List.prefix_append_right_inj] at this
+        exact singleton_prefix_cons this
+      · have h1 : path ++ [n] <+: c.path := by
+          have : path ++ [n] <+: path ++ n :: r := by
+            rw [List.prefix_append_right_inj]; exact ⟨r, rfl⟩
+          exact this.trans hrel
+        have := List.prefix_of_prefix_length_le hpre h1 (by simp)
+        rw [List.prefix_append_right_inj] at this
+        exact singleton_prefix_cons this
+    subst hmn
+    rw [hanc] at hcp
+    have hrel' : c.path <+: (path ++ [m]) ++ r ∨ (path ++ [m]) ++ r <+: c.path := by
+      simpa [List.append_assoc] using hrel
+    have := ih (path ++ [m]) _ _ _ hrest c hcp hrel'
+    simpa [List.append_assoc, getPath] using this
+
 end Mutagen.Proofs.Reconcile
